@@ -437,5 +437,32 @@ pub mod gs {
             if b != ix(t) { assert(builds(g1)[b] == builds(g0)[b]); }
         }
     }
+
+    /// new input-less, dependent-less files do not disturb the graph invariant
+    pub proof fn lemma_files_ext_wf(g0: Graph, g1: Graph)
+        requires wf_graph(g0), g1.builds == g0.builds, files_ext(files(g0), files(g1)), files(g1).len() < 0x1_0000_0000
+        ensures wf_graph(g1)
+    {
+        assert forall|b: int| 0 <= b < builds(g1).len() implies wf_build(#[trigger] builds(g1)[b]) && build_ids_ok(g1, builds(g1)[b]) && no_dup(builds(g1)[b].outs.ids@) by {
+            assert(build_ids_ok(g0, builds(g0)[b]));
+            let x = builds(g1)[b];
+            assert forall|j: int| 0 <= j < x.ins.ids@.len() implies fid_ok(g1, #[trigger] x.ins.ids@[j]) by { assert(fid_ok(g0, x.ins.ids@[j])); }
+            assert forall|j: int| 0 <= j < x.outs.ids@.len() implies fid_ok(g1, #[trigger] x.outs.ids@[j]) by { assert(fid_ok(g0, x.outs.ids@[j])); }
+            assert forall|j: int| 0 <= j < x.discovered_ins@.len() implies fid_ok(g1, #[trigger] x.discovered_ins@[j]) by { assert(fid_ok(g0, x.discovered_ins@[j])); }
+        }
+        assert forall|b: int, j: int| 0 <= b < builds(g1).len() && 0 <= j < builds(g1)[b].outs.ids@.len() implies
+            files(g1)[ix(#[trigger] builds(g1)[b].outs.ids@[j])].input == Some(BuildId(b as u32)) by {
+            assert(build_ids_ok(g0, builds(g0)[b]));
+            assert(fid_ok(g0, builds(g0)[b].outs.ids@[j]));
+            let _ = files(g1)[ix(builds(g1)[b].outs.ids@[j])];
+        }
+        assert forall|f: int| 0 <= f < files(g1).len() implies match (#[trigger] files(g1)[f]).input {
+                Some(p) => ix(p) < builds(g1).len() && builds(g1)[ix(p)].outs.ids@.contains(FileId(f as u32)), None => true } by {
+            if f < files(g0).len() { assert(files(g1)[f] == files(g0)[f]); }
+        }
+        assert forall|f: int, k: int| 0 <= f < files(g1).len() && 0 <= k < files(g1)[f].dependents@.len() implies ix(#[trigger] files(g1)[f].dependents@[k]) < builds(g1).len() by {
+            if f < files(g0).len() { assert(files(g1)[f] == files(g0)[f]); }
+        }
+    }
     }
 }
